@@ -72,11 +72,15 @@ func newC20World(id string) (*c20World, error) {
 	w.hooks = sim.NewHookSite(s.Clock(), s.Tag)
 	crd := func(plural, kind string, status bool) *apiextensionsv1.CustomResourceDefinition {
 		v := apiextensionsv1.CustomResourceDefinitionVersion{Name: "v1", Served: true, Storage: true}
+		// the CRD has three versions; the one the controllers use is neither the first nor the last,
+		// and its neighbours have a status subresource whether or not it has one itself
+		older := apiextensionsv1.CustomResourceDefinitionVersion{Name: "v1alpha1", Served: true, Subresources: &apiextensionsv1.CustomResourceSubresources{Status: &apiextensionsv1.CustomResourceSubresourceStatus{}}}
+		newer := apiextensionsv1.CustomResourceDefinitionVersion{Name: "v2", Served: true, Subresources: &apiextensionsv1.CustomResourceSubresources{Status: &apiextensionsv1.CustomResourceSubresourceStatus{}}}
 		if status {
 			v.Subresources = &apiextensionsv1.CustomResourceSubresources{Status: &apiextensionsv1.CustomResourceSubresourceStatus{}}
 		}
 		return &apiextensionsv1.CustomResourceDefinition{ObjectMeta: metav1.ObjectMeta{Name: plural + ".ctest.dev"},
-			Spec: apiextensionsv1.CustomResourceDefinitionSpec{Group: "ctest.dev", Names: apiextensionsv1.CustomResourceDefinitionNames{Plural: plural, Kind: kind}, Versions: []apiextensionsv1.CustomResourceDefinitionVersion{v}}}
+			Spec: apiextensionsv1.CustomResourceDefinitionSpec{Group: "ctest.dev", Names: apiextensionsv1.CustomResourceDefinitionNames{Plural: plural, Kind: kind}, Versions: []apiextensionsv1.CustomResourceDefinitionVersion{older, v, newer}}}
 	}
 	w.k8s = fake.NewClientBuilder().WithScheme(c20Scheme()).WithObjects(crd("things", "Thing", true), crd("nostatuses", "NoStatus", false)).Build()
 	ctx := common.ControllerContext{K8sClient: w.k8s, Resources: e.Resources, DynClient: e.DynClient, DynInformers: e.DynInformers, McInformerFactory: e.McInformers, McClient: e.McClient, EventRecorder: env.NopRecorder{}}
